@@ -75,15 +75,17 @@ Inductive ev :=
 | EvPush (t : N)             (* tokenizer.push(token)              prodparser.py stopAndKeep / ParseError      *)
 | EvTake                     (* the shared tokenizer's generator yields one pushed token  tokenize2.py:150     *)
 | EvLog                      (* log.error/warn/...: reads log.raiseExceptions   errorhandler.py __handle       *)
-| EvSer (m : N) (sl : Z)     (* one call into css_parser.ser: reads ser, prefs, _level and, under
-                                indentSpecificities, the memo, which it may replace by (m, sl)                 *)
+| EvSer (m : N) (sl : Z)     (* one call into css_parser.ser: reads ser, prefs, _level, _selectorlevel
+                                (serialize.py do_CSSStyleRule's last line reads it unconditionally) and, under
+                                indentSpecificities, the memo; under that preference it may replace
+                                memo and _selectorlevel by (m, sl)                                              *)
 | EvTok.                     (* Tokenizer(): reads PRODUCTIONS / the compiled-production cache                 *)
 
 Inductive obs :=
 | ONone
 | OTok (t : option N)
 | OFlag (b : bool)
-| OSer (i p : N) (lv : Z) (mm : option (N * Z))
+| OSer (i p : N) (lv sl : Z) (mm : option N)
 | ODx (b : bool).
 
 Inductive action := Do (e : ev) | Ret | Exc | ExcInRule.
@@ -111,7 +113,7 @@ Definition do_ev (st : sites) (inited : bool) (e : ev) (g : G) : option (G * obs
   | EvLog => Some (g, OFlag (raising g), inited)
   | EvSer m sl =>
       Some (if reads_memo st g then set_memo m sl g else g,
-            OSer (ser g) (prefs g) (level g) (if reads_memo st g then Some (memo g, sellevel g) else None),
+            OSer (ser g) (prefs g) (level g) (sellevel g) (if reads_memo st g then Some (memo g) else None),
             inited)
   | EvTok => Some (g, ODx (dx g), inited)
   end.
